@@ -146,6 +146,7 @@ func c01Fault(c c01Case) *Outcome {
 	// short-request
 	var mu sync.Mutex
 	var hrecv [][]byte
+	var hfinal error
 	svc := &Service{
 		Unary: func(ctx context.Context, req *pb.Message) (*pb.Message, error) {
 			mu.Lock()
@@ -157,6 +158,9 @@ func c01Fault(c c01Case) *Outcome {
 			for {
 				m := new(pb.Message)
 				if err := stream.RecvMsg(m); err != nil {
+					mu.Lock()
+					hfinal = err
+					mu.Unlock()
 					return nil
 				}
 				mu.Lock()
@@ -222,6 +226,11 @@ func c01Fault(c c01Case) *Outcome {
 	o.Observed = map[string]interface{}{"announced": len(body), "sent": k, "handler_obtained": len(hrecv), "read_err": errStr(rerr)}
 	if why := c01PrefixOf(hrecv, sent); why != "" {
 		return o.failf("%s/%s: request of %d bytes announced, %d sent, then the sending side closed: handler side: %s", c.Carrier, s.Kind, len(body), k, why)
+	}
+	if s.Kind != kUnary && hfinal == io.EOF && len(hrecv) < len(sent) {
+		// "when the call ends successfully the two sequences are equal": a clean end of the request stream is the
+		// handler's signal that it has everything
+		return o.failf("%s/%s: request of %d bytes announced, %d sent (a cut between two messages), then the sending side closed: the handler was told the request stream had ended cleanly (io.EOF) after %d of %d messages", c.Carrier, s.Kind, len(body), k, len(hrecv), len(sent))
 	}
 	return o
 }
@@ -412,6 +421,13 @@ func (r *c01run) client(conn grpc.ClientConnInterface, i int) {
 			r.fault("rpc %d (unary): client received %s, handler returned %s", i, pbFromDet(detBytes(out)), pbFromDet(st.respB[0]))
 		}
 		st.cRecv.Add(1)
+		// the reply is the caller's own: what it does to it is nobody else's business (the handler keeps the object
+		// it returned - a cached reply - and must find it as it was)
+		flipBytes(out)
+		out.Count, out.Code = -out.Count-1, 424242
+		if string(detBytes(st.resps[0])) != string(st.respB[0]) {
+			r.fault("rpc %d (unary): the caller wrote into the reply it had received, and the message the handler returned (and kept) changed with it", i)
+		}
 		return
 	}
 	var copts []grpc.CallOption
